@@ -19,7 +19,7 @@ from symx import core
 from symx.core import range_len, slice_indices, _z
 from symx.oracle import AND, EQ, IMPLIES, ITE, NOT, OR, cumsum0, selected, sel_len
 from symx.runner import Instance
-from symx.sarr import BoundsLog, SArr, leaf, same_array, valid
+from symx.sarr import BoundsLog, MArr, SArr, leaf, same_array, valid
 from symx.world import SHIM_LIST
 
 from .common import unit_hashes, world
@@ -59,42 +59,7 @@ def bounds(tier):
                 ints="unbounded")
 
 
-class Target(SArr):
-    """mutable symbolic array"""
-
-    def __setitem__(self, index, value):
-        if not isinstance(index, tuple):
-            index = (index,)
-        index = tuple(index) + (slice(None),) * (self.ndim - len(index))
-        triples = [slice_indices(s.start, s.stop, s.step, n) for s, n in zip(index, self.shape)]
-        lens = [range_len(*t) for t in triples]
-        if not isinstance(value, SArr):
-            raise core.Unsupported("non-array value written to a target")
-        self.log.add("written block rank equals target rank", value.ndim == self.ndim)
-        if value.ndim != self.ndim:
-            return
-        self.log.add("written block shape equals the selected shape", AND(*[a == b for a, b in zip(value.shape, lens)]))
-        old = self._at
-
-        def at(pos, triples=tuple(triples), value=value, old=old):
-            conds, idx = [], []
-            for p, (a, b, s) in zip(pos, triples):
-                a, b = _z(a), _z(b)
-                if s > 0:
-                    conds += [p >= a, p < b, (p - a) % s == 0]
-                    idx.append((p - a) / s)
-                else:
-                    conds += [p <= a, p > b, (a - p) % (-s) == 0]
-                    idx.append((a - p) / (-s))
-            return z3.If(z3.And(*conds), value._at(tuple(idx)), old(pos))
-
-        self._at = at
-        self.writes = getattr(self, "writes", 0) + 1
-
-    def __getitem__(self, index):
-        # a read sees the content at the time of the read
-        snap = SArr(self.shape, self._at, self.dtype, self.log)
-        return snap[index]
+Target = MArr
 
 
 class Src:
